@@ -59,7 +59,7 @@ func Calls(fn *ssa.Function) []ssa.CallInstruction {
 func Static(c ssa.CallInstruction) *ssa.Function {
 	cc := c.Common()
 	if cc.IsInvoke() {
-		return nil
+		return invokeTarget(c)
 	}
 	if f := cc.StaticCallee(); f != nil {
 		return f
@@ -86,6 +86,55 @@ func Static(c ssa.CallInstruction) *ssa.Function {
 		}
 		return nil
 	}
+}
+
+// invokeTarget resolves an interface method call whose receiver visibly has one concrete type: a value
+// just boxed (MakeInterface), or the result of a constructor all of whose returns box the same type.
+func invokeTarget(c ssa.CallInstruction) *ssa.Function {
+	cc := c.Common()
+	fn := c.Parent()
+	if fn == nil || fn.Prog == nil {
+		return nil
+	}
+	var concrete func(v ssa.Value, depth int) types.Type
+	concrete = func(v ssa.Value, depth int) types.Type {
+		if depth > 3 {
+			return nil
+		}
+		switch x := v.(type) {
+		case *ssa.MakeInterface:
+			return x.X.Type()
+		case *ssa.ChangeInterface:
+			return concrete(x.X, depth+1)
+		case *ssa.Call:
+			g := x.Call.StaticCallee()
+			if g == nil || len(g.Blocks) == 0 || g.Signature.Results().Len() != 1 {
+				return nil
+			}
+			var t types.Type
+			for _, b := range g.Blocks {
+				if len(b.Instrs) == 0 {
+					continue
+				}
+				ret, ok := b.Instrs[len(b.Instrs)-1].(*ssa.Return)
+				if !ok {
+					continue
+				}
+				rt := concrete(ret.Results[0], depth+1)
+				if rt == nil || (t != nil && !types.Identical(t, rt)) {
+					return nil
+				}
+				t = rt
+			}
+			return t
+		}
+		return nil
+	}
+	t := concrete(cc.Value, 0)
+	if t == nil {
+		return nil
+	}
+	return fn.Prog.LookupMethod(t, cc.Method.Pkg(), cc.Method.Name())
 }
 
 // singleStoredClosure: addr is an Alloc or a FreeVar bound to an Alloc that is
@@ -1310,8 +1359,8 @@ func Returns(fn *ssa.Function) []*ssa.Return {
 type RetPoint struct {
 	Ret     *ssa.Return
 	Results []ssa.Value
-	At      *ssa.BasicBlock // facts that hold at the end of this block hold on this way out
-	Join    *ssa.BasicBlock // the joining return block At jumps to (nil for a plain return)
+	At      *ssa.BasicBlock          // facts that hold at the end of this block hold on this way out
+	Join    *ssa.BasicBlock          // the joining return block At jumps to (nil for a plain return)
 	via     map[*ssa.BasicBlock]bool // the join blocks between At and Join
 }
 
@@ -1549,6 +1598,40 @@ type Cond struct {
 	Key  string
 	Want bool
 	V    ssa.Value
+}
+
+// EdgesContradicting returns the branch edges of fn on which a condition with one of the given structural
+// keys has the opposite of the given polarity.
+func EdgesContradicting(fn *ssa.Function, facts map[string]bool) map[Edge]bool {
+	out := map[Edge]bool{}
+	for _, blk := range fn.Blocks {
+		if len(blk.Instrs) == 0 || len(blk.Succs) != 2 || blk.Succs[0] == blk.Succs[1] {
+			continue
+		}
+		iff, ok := blk.Instrs[len(blk.Instrs)-1].(*ssa.If)
+		if !ok {
+			continue
+		}
+		c, neg := iff.Cond, false
+		for {
+			if u, isU := c.(*ssa.UnOp); isU && u.Op == token.NOT {
+				c, neg = u.X, !neg
+				continue
+			}
+			break
+		}
+		want, known := facts[ExprKey(c)]
+		if !known {
+			continue
+		}
+		// successor taken when c == want
+		idx := 0
+		if want == neg {
+			idx = 1
+		}
+		out[Edge{blk, blk.Succs[1-idx]}] = true
+	}
+	return out
 }
 
 // DominatingConds returns the branch conditions (as structural keys with
